@@ -340,7 +340,7 @@ func buildTable(x *fx) []*fn {
 			s := crypto.BLSInvalidSignature()
 			ok, err := x.blsPK[0].Verify(s, x.msg, x.kmac())
 			if ok || err != nil || len(crypto.IdentityBLSPublicKey().Encode()) != 96 {
-				return res{err: fmt.Errorf("%w: BLSInvalidSignature verified", errDriver)}
+				return res{err: fmt.Errorf("%w: BLSInvalidSignature verified", errWrongAnswer)}
 			}
 			return res{}
 		}})
@@ -452,7 +452,7 @@ func buildTable(x *fx) []*fn {
 			all := len(out) > 0
 			for i, b := range out {
 				if b && (!isBLSsig(sl[i]) || (err != nil)) {
-					return res{err: fmt.Errorf("%w: index %d reported true for an invalid signature or together with an error", errDriver, i)}
+					return res{err: fmt.Errorf("%w: index %d reported true for an invalid signature or together with an error", errWrongAnswer, i)}
 				}
 				all = all && b
 			}
@@ -717,7 +717,7 @@ func buildTable(x *fx) []*fn {
 		}
 		ok, err := o.VerifyThresholdSignature(s)
 		if err != nil || !ok {
-			return res{err: fmt.Errorf("%w: ThresholdSignature returned a signature that does not verify (%v)", errDriver, err)}
+			return res{err: fmt.Errorf("%w: ThresholdSignature returned a signature that does not verify (%v)", errWrongAnswer, err)}
 		}
 		return res{out: "then-ThresholdSignature-ok"}
 	}
@@ -769,7 +769,7 @@ func buildTable(x *fx) []*fn {
 				return res{err: err}
 			}
 			if ok, err := x.thrGroup.Verify(s, x.msg, x.kmac()); err != nil || !ok {
-				return res{err: fmt.Errorf("%w: ThresholdSignature returned a signature that does not verify", errDriver)}
+				return res{err: fmt.Errorf("%w: ThresholdSignature returned a signature that does not verify", errWrongAnswer)}
 			}
 			s2, err := o.ThresholdSignature() // cached path
 			return res{err: err, out: fmt.Sprintf("len%d", len(s2))}
